@@ -37,7 +37,12 @@
 (***************************************************************************)
 EXTENDS Naturals, Sequences, FiniteSets, TLC, Json
 
-CONSTANTS DelMode,    \* "-D": the code as it is (`git branch -D`); "-d": regression domain (`git branch -d` refuses a
+CONSTANTS KeyMode,    \* how the lines collection keys the stored source lines: "filepath" = by the path the module was
+                      \* found at = Module.filepath (the code as it is); "realpath" = by the symlink-resolved path with a
+                      \* raw-then-resolved lookup (regression domain: a module reached through a symlink tracked in git,
+                      \* c20pkg/compat.py -> ../_c20pkg/compat_impl.py, loses its lines once the checkout is gone,
+                      \* because resolving its filepath needs the link, which lived in the checkout)
+          DelMode,    \* "-D": the code as it is (`git branch -D`); "-d": regression domain (`git branch -d` refuses a
                       \* branch that is not merged into the user's HEAD - temporary branches of diverging refs leak)
           Variant,    \* "force": the code as it is (`git worktree remove --force`, repo commit "fix: force removal of
                       \* the temporary git worktree"); "orig": before that fix (regression domain, exhibits the leak)
@@ -62,6 +67,7 @@ CONSTANTS DelMode,    \* "-D": the code as it is (`git branch -D`); "-d": regres
 \*   branches main -> c5 (checked out), feat/x -> c4, feat-x -> c4 (normalises like feat/x), x -> c3,
 \*            griffe-x -> c3 (a USER branch that looks like one of our temporary branches),
 \*            wt-user -> c4 (checked out in a user worktree)
+\*   c20pkg/compat.py is a SYMLINK (tracked in git) to ../_c20pkg/compat_impl.py from c3 on
 \*   "WT" is not a ref: check() without base_ref loads the user's working tree with a plain load()
 \*   side/y -> c6, a commit on top of c3 that is NOT an ancestor of HEAD (diverging history)
 AllRefs == {"v1", "feat/x", "feat-x", "x", "bad", "v0", "nope", "HEAD", "HEAD~1", "refs/tags/v1", "side/y"}
@@ -199,14 +205,17 @@ RmTmp ==           \* TemporaryDirectory.__exit__: rmtree(tmp_dir) - a checkout 
   /\ UNCHANGED <<plan, intrs, phase, pending, inTry, lastrc, head, status, branches, imported, lines, outcome, exitcode>>
 
 \* ---- load_git returns or raises; check continues ---------------------------------------------------------
+\* lines of the symlinked module can be looked up by Module.filepath at this point (checkout removed unless it leaked)
+LinkedLinesReadable == KeyMode = "filepath" \/ Tmp \in tmpDirs
 EndLoad ==
   /\ pc = "EndLoad"
+  /\ lines' = IF pending = "none" /\ Len(lines) > 0 THEN [lines EXCEPT ![Len(lines)] = @ /\ LinkedLinesReadable] ELSE lines
   /\ IF pending # "none"
        THEN Goto("Done") /\ outcome' = pending /\ UNCHANGED phase              \* check() catches nothing here
        ELSE IF plan.op = "load" THEN Goto("Done") /\ outcome' = "returned" /\ UNCHANGED phase
        ELSE IF phase = 1 THEN Goto(IF plan.ref2 = "WT" THEN "LoadWT" ELSE "AssertRepo") /\ phase' = 2 /\ UNCHANGED outcome
        ELSE Goto("Diff") /\ phase' = 3 /\ UNCHANGED outcome
-  /\ UNCHANGED <<plan, intrs, pending, inTry, lastrc, gitvars, tmpDirs, wtDirty, imported, lines, exitcode>>
+  /\ UNCHANGED <<plan, intrs, pending, inTry, lastrc, gitvars, tmpDirs, wtDirty, imported, exitcode>>
 LoadWT ==          \* check() without base_ref: new_package = load(package, try_relative_path=True, ...) - no git at all
   /\ pc = "LoadWT"
   /\ IF plan.extAt = 2 THEN Goto("Done") /\ outcome' = "ExtError" /\ pending' = "ExtError" /\ UNCHANGED <<phase, lines>>
